@@ -68,6 +68,11 @@ func (p Precompile) Address() common.Address {
 
 // RequiredGas calculates the precompiled contract's base gas rate.
 func (p Precompile) RequiredGas(input []byte) uint64 {
+	// NOTE: the EVM computes the gas on the raw call data before Run: tolerate call data shorter than a selector
+	if len(input) < 4 {
+		return 0
+	}
+
 	methodID := input[:4]
 
 	method, err := p.MethodById(methodID)
